@@ -571,6 +571,41 @@ def r18_7(ctx, tu, cg):
     return n
 
 
+def r18_8(ctx):
+    """an external given with -d is defined the same way on source rules (through the
+    compiler) and on compiled rules (on the loaded rule set): for every value type the
+    two define calls of one branch get the same identifier and the same converted value.
+    A conversion repaired or widened on one side only makes `yara rules.yar` and
+    `yara -C rules.yarc` disagree for the same command line."""
+    from .C14 import canon
+    prog = ctx.prog
+    n = 0
+    for f in prog.fns():
+        if not (f.file.startswith('cli/') or ctx.fixture):
+            continue
+        by_type = {}
+        for c in f.calls():
+            cal = c.get('callee') or ''
+            for pre, side in (('yr_rules_define_', 'rules'), ('yr_compiler_define_', 'compiler')):
+                if cal.startswith(pre) and cal.endswith('_variable'):
+                    by_type.setdefault(cal[len(pre):-len('_variable')], {}).setdefault(side, []).append(c)
+        for ty, sides in sorted(by_type.items()):
+            if set(sides) != set(['rules', 'compiler']):
+                continue
+            for k, (a, b) in enumerate(zip(sides['rules'], sides['compiler'])):
+                n += 1
+                aa, ba = f.call_args(a), f.call_args(b)
+                same = len(aa) > 2 and len(ba) > 2 and canon(f, aa[1]) == canon(f, ba[1]) and \
+                    canon(f, aa[2]) == canon(f, ba[2])
+                ctx.ob('R18.8', '%s:%s#%d:same-value-on-rules-and-compiler' % (f.name, ty, k), same, f.loc(b),
+                       'both sides receive (%s, %s)' % (canon(f, aa[1]), canon(f, aa[2])[:40]) if same else
+                       'the %s external is defined as %s on the rule set and as %s on the compiler: source '
+                       'rules and compiled rules see different values for the same -d option' % (
+                           ty, canon(f, aa[2])[:50] if len(aa) > 2 else '?',
+                           canon(f, ba[2])[:50] if len(ba) > 2 else '?'))
+    return n
+
+
 def run(ctx):
     cg = CallGraph(ctx.prog)
     tu = cli_tu(ctx)
@@ -585,3 +620,5 @@ def run(ctx):
     ctx.floor('R18.6', 3)
     r18_7(ctx, tu, cg)
     ctx.floor('R18.7', 1)
+    r18_8(ctx)
+    ctx.floor('R18.8', 4)
